@@ -2036,6 +2036,10 @@ class Store:
                     schema['_flow'] = subflow
                 process_state = Store(schema, outer=self)
 
+                if key in self.inner:
+                    # a process that is replaced in place leaves the
+                    # hierarchy: stop its worker if it runs in parallel
+                    self.recursive_end_process(self.inner[key])
                 self.inner[key] = process_state
 
                 subprocess.schema = subprocess.get_schema()
